@@ -327,7 +327,7 @@ class Builtin2Mixin:
         pol = self.config.get('user_havoc', 'all')
         if pol == 'none':
             return
-        protected = [self.cls(q) for q in self.config.get('protected_classes', [])] + [self.cls('UserCallEvent'), self.cls('function'), self.cls('type')]
+        protected = [self.cls(q) for q in self.config.get('protected_classes', [])] + [self.cls('UserCallEvent'), self.cls('function'), self.cls('type'), self.cls('method')]
         oldH, oldDH, oldDV, oldDL, oldLS = st.H, st.DH, st.DV, st.DL, st.LS
         tag = smt._cnt[0] = smt._cnt[0] + 1
         fH = z3.Const(f'H!u{tag}', smt.HeapSort)
